@@ -124,11 +124,18 @@ theorem exec_complete (P : Prog V) (fl : Worker → Flags) (res₀ : Task → Op
     (sdeps : Task → List Task) (hlt : ∀ t d, d ∈ sdeps t → d < t) (s : Sys V) (evs : List (Ev V))
     (hr : CleanSteps P fl (initSys res₀) evs s)
     (hw : ∀ e ∈ evs, ∀ w, evWorker e = some w → w < W)
-    (hscan : scanRun n sdeps Scan.init evs = true)
+    (hscan : scanRun n sdeps (kgOf fl) Scan.init evs = true)
     (hq : ∀ w, w < W → s.wk w = .exited 0) :
     ∀ t, t < n → s.res t ≠ none := by
-  obtain ⟨sc, hc⟩ := cleanSteps_cinv P fl n W sdeps evs _ s Scan.init (cinv_init n W hW sdeps res₀) hr hw hscan
-  exact complete_of_cinv n W sdeps hlt s sc hc hq
+  have hc := fsteps_cinv P fl n W sdeps evs _ s Scan.init (cinv_init n W hW sdeps fl res₀)
+    (fsteps_of_cleanSteps P fl evs _ s hr) hw hscan
+  intro t ht
+  rcases complete_of_cinv n W sdeps fl hlt s _ hc (fun w hw => ⟨0, hq w hw⟩) t ht with h | h
+  · exact h
+  · -- nothing failed in a failure-free history
+    have hf := scanFold_failedT_clean (V := V) sdeps (kgOf fl) evs Scan.init (cleanSteps_all_clean P fl evs _ s hr)
+    rw [hf] at h
+    exact absurd h (not_blocked_of_none sdeps t)
 
 theorem cleanSteps_steps (P : Prog V) (fl : Worker → Flags) : ∀ (evs : List (Ev V)) (s₀ s : Sys V),
     CleanSteps P fl s₀ evs s → Steps P fl s₀ evs s := by
@@ -147,7 +154,7 @@ theorem exec_complete_reference (P : Prog V) (wf : WF P) (fl : Worker → Flags)
     (sdeps : Task → List Task) (hlt : ∀ t d, d ∈ sdeps t → d < t) (s : Sys V) (evs : List (Ev V))
     (hr : CleanSteps P fl (initSys res₀) evs s)
     (hw : ∀ e ∈ evs, ∀ w, evWorker e = some w → w < W)
-    (hscan : scanRun P.n sdeps Scan.init evs = true)
+    (hscan : scanRun P.n sdeps (kgOf fl) Scan.init evs = true)
     (hq : ∀ w, w < W → s.wk w = .exited 0) :
     ∀ t, t < P.n → s.res t = some (denot P t) := by
   intro t ht
@@ -159,7 +166,7 @@ theorem exec_complete_reference (P : Prog V) (wf : WF P) (fl : Worker → Flags)
 
 /-- the obligation is needed: without it a worker may simply leave, and the history is accepted with nothing computed -/
 example : ∃ s, run (V := Nat) { n := 1, deps := fun _ => [], f := fun _ _ => 0 } (fun _ => ⟨false, false⟩) (initSys (fun _ => none)) [.exit 0 0] = some s
-    ∧ s.wk 0 = .exited 0 ∧ s.res 0 = none ∧ scanRun (V := Nat) 1 (fun _ => []) Scan.init [.exit 0 0] = false := ⟨_, rfl, by decide⟩
+    ∧ s.wk 0 = .exited 0 ∧ s.res 0 = none ∧ scanRun (V := Nat) 1 (fun _ => []) (fun _ => false) Scan.init [.exit 0 0] = false := ⟨_, rfl, by decide⟩
 
 /-! non-vacuity: a diamond-free chain executed by two workers ends with the reference values -/
 section Example
@@ -174,7 +181,7 @@ example : denot exP 1 = 6 := by decide
 def exHist2 : List (Ev Nat) := exHist ++ [.canLoad 0 1 true, .exit 0 0, .canLoad 1 0 true, .exit 1 0]
 example : ∃ s, run exP exFl (initSys (fun _ => none)) exHist2 = some s ∧ s.wk 0 = .exited 0 ∧ s.wk 1 = .exited 0 ∧ s.res 0 = some 5 :=
   ⟨_, rfl, by decide⟩
-example : scanRun 2 exP.deps Scan.init exHist2 = true := by decide
+example : scanRun 2 exP.deps (fun _ => false) Scan.init exHist2 = true := by decide
 end Example
 
 end Jug.C01
